@@ -24,6 +24,10 @@ type c01Case struct {
 const c01MaxOut = 3000
 
 func c01Decide(c *run.Ctx, src string, input any, prop string) *run.Fail {
+	return c01DecideBudget(c, src, input, defBudget, 2*defBudget)
+}
+
+func c01DecideBudget(c *run.Ctx, src string, input any, budget, modelSteps int64) *run.Fail {
 	q, err := gojq.Parse(src)
 	if err != nil {
 		c.Inconclusive("does-not-parse")
@@ -37,8 +41,8 @@ func c01Decide(c *run.Ctx, src string, input any, prop string) *run.Fail {
 		c.Inconclusive("does-not-compile")
 		return nil
 	}
-	tr := run.RunCode(code, input, nil, defBudget, c01MaxOut)
-	res := model.Run(q, run.DeepCopy(input), nil, 2*defBudget, c01MaxOut)
+	tr := run.RunCode(code, input, nil, budget, c01MaxOut)
+	res := model.Run(q, run.DeepCopy(input), nil, modelSteps, c01MaxOut)
 	c.Logf("gojq : %s", run.TraceDesc(tr))
 	c.Logf("model: %s", modelDesc(res))
 	diff, inc := cmpModel(tr, res)
@@ -68,6 +72,10 @@ func c01Decide(c *run.Ctx, src string, input any, prop string) *run.Fail {
 	c.Count("values_compared", int64(len(tr.Vals)))
 	return nil
 }
+
+var kC01Scale = run.NewKind("c01.scale", func(c *run.Ctx, t c01Case) *run.Fail {
+	return c01DecideBudget(c, t.Src, t.Input.V, 6000000, 20000000)
+})
 
 var kC01 = run.NewKind("c01.model", func(c *run.Ctx, t c01Case) *run.Fail {
 	if f := c01Decide(c, t.Src, t.Input.V, "C01"); f != nil {
@@ -182,6 +190,63 @@ func c01Exhaustive(full bool) []string {
 	return out
 }
 
+// c01Scale: programs whose depth/width is a parameter, so that mechanisms which only show beyond a size
+// (scope chains, register-file growth, fork-stack growth, block reuse in the persistent stacks) are exercised.
+func c01Scale(n int) []string {
+	N := fmt.Sprint(n)
+	nest := func(k int, open, close, core string) string {
+		return strings.Repeat(open, k) + core + strings.Repeat(close, k)
+	}
+	k := min(n, 150)
+	var vars, refs []string
+	for i := 0; i < k; i++ {
+		vars = append(vars, fmt.Sprintf("%d as $v%d", i, i))
+		refs = append(refs, fmt.Sprintf("$v%d", i))
+	}
+	var defs []string
+	defs = append(defs, "def f0: 0;")
+	for i := 1; i < k; i++ {
+		defs = append(defs, fmt.Sprintf("def f%d: f%d + 1;", i, i-1))
+	}
+	var labels []string
+	for i := 0; i < min(k, 60); i++ {
+		labels = append(labels, fmt.Sprintf("label $l%d", i))
+	}
+	return []string{
+		"def f: if . >= " + N + " then . else . + 1 | f end; 0 | f",
+		"def f: if . >= " + N + " then 0 else 1 + (. + 1 | f) end; 0 | f",
+		"def f: if . >= " + N + " then [] else [.] + (. + 1 | f) end; 0 | f | length",
+		"def f(g): if . >= " + N + " then g else . + 1 | f(g + 1) end; 0 | f(0)",
+		"def f($a): if $a >= " + N + " then $a else f($a + 1) end; f(0)",
+		"reduce range(" + N + ") as $i (0; . + $i)", "[range(" + N + ")] | map(. + 1) | add", "[limit(" + N + "; repeat(1))] | length", "[range(" + N + ")] | length", "last(range(" + N + "))",
+		"[range(" + N + ") | select(. % 7 == 0)] | length", "[foreach range(" + N + ") as $i (0; . + $i)] | last", "[range(" + N + ")] | .[" + fmt.Sprint(n/2) + ":] | length", "[range(" + N + ")] | [.[] as $x | $x * 2] | add",
+		"[range(" + N + ")] | sort_by(-.) | .[0]", "[range(" + N + ")] | group_by(. % 3) | map(length)", "[range(" + N + ") | . % 5] | unique", "[range(" + N + ")] | min, max, (map(. > 3) | any, all)", "[range(" + N + ")] | to_entries | map(.key) | add",
+		"[range(" + N + ")] | tojson | length", "reduce range(" + N + ") as $i ({}; .[\"k\\($i)\"] = $i) | keys | length", "reduce range(" + fmt.Sprint(k) + ") as $i (0; {a: .}) | [paths] | length", "reduce range(" + fmt.Sprint(k) + ") as $i (0; [.]) | [..] | length",
+		"reduce range(" + fmt.Sprint(k) + ") as $i (0; [.]) | flatten", "[range(" + N + ")] | [.[] | if . % 2 == 0 then empty else . end] | length", "[range(" + N + ")] | first(.[] | select(. > " + fmt.Sprint(n/2) + "))",
+		"[range(" + N + ")] | [limit(5; .[] | select(. > 2))]", "[range(" + N + ")] | .[] |= . + 1 | add", "[range(" + N + ")] | del(.[range(0; " + N + "; 2)]) | length", "[range(" + N + ")] | (.[] | select(. % 3 == 0)) = 0 | add",
+		"[range(" + fmt.Sprint(min(n, 60)) + ")] | [.[] as $x | .[] as $y | select($x + $y == 7)] | length", "[range(" + N + ")] | map(tostring) | join(\",\") | length", "[range(" + N + ")] | [.[] | try (if . % 10 == 3 then error(.) else . end) catch -1] | add",
+		"[range(" + N + ")] | [label $out | .[] | if . > 5 then ., break $out else . end] | length", "[range(" + N + ")] | isempty(.[] | select(. < 0))", "[range(" + N + ")] | [path(.[])] | length", "[range(" + N + ")] | [paths] | length", "[range(" + N + ")] | [tostream] | length",
+		"[range(" + N + ")] | [.[] | . as [$a] ?// $a | $a] | add", "[range(" + N + ") | {a: ., b: [.]}] | map(.b[0] + .a) | add", "[range(" + N + ")] | indices(3)", "[range(" + N + ")] | index(" + fmt.Sprint(n-1) + ")",
+		strings.Join(vars, " | ") + " | [" + strings.Join(refs, ", ") + "] | add",
+		strings.Join(defs, " ") + fmt.Sprintf(" f%d", k-1),
+		nest(min(k, 100), "try (", ") catch error(. + 1)", "error(0)") + "?",
+		"try (" + nest(min(k, 100), "try (", ") catch error(. + 1)", "error(0)") + ") catch .",
+		strings.Join(labels, " | ") + " | (1, break $l0, 2)",
+		strings.Join(labels, " | ") + fmt.Sprintf(" | (1, break $l%d, 2)", len(labels)-1),
+		nest(min(k, 100), "def f(g): g; f(", ")", "1"),
+		nest(min(k, 100), "[", "]", "1") + " | flatten", nest(min(k, 100), "{a: ", "}", "1") + " | [paths] | length", nest(min(k, 100), "(1, ", ")", "2") + " | select(. == 2)",
+		nest(min(k, 80), "first(", ")", "range(3)"), nest(min(k, 80), "[limit(2; ", ")]", "1, 2, 3"), nest(min(k, 80), "if true then ", " else 0 end", "1"), nest(min(k, 100), "-(", ")", "1"),
+		nest(min(k, 80), "(. as $x | ", ")", "$x"), nest(min(k, 80), "reduce (", ") as $x (0; . + $x)", "1, 2"), nest(min(k, 50), "[foreach (", ") as $x (0; . + $x)]", "1, 2") + " | flatten | add",
+		"[" + nest(min(k, 100), "1 + ", "", "1") + ", " + nest(min(k, 100), "", " // 2", "null") + "]", "\"" + strings.Repeat("\\(1)", min(k, 100)) + "\" | length", "{" + func() string {
+			var kv []string
+			for i := 0; i < min(k, 100); i++ {
+				kv = append(kv, fmt.Sprintf("k%d: %d", i, i))
+			}
+			return strings.Join(kv, ", ")
+		}() + "} | add",
+	}
+}
+
 func init() {
 	run.Register(&run.Prop{
 		ID: "C01", Level: "exploration", MinNontrivial: 2000,
@@ -196,6 +261,12 @@ func init() {
 			for i, src := range ex {
 				for j := 0; j < nin; j++ {
 					kC01.Do(c, c01Case{Src: src, Input: run.TV{V: small[(i*7+j*5)%len(small)]}})
+				}
+			}
+			// (a2) scale: the same forms at depth/width 10, 70, 300 and 1500
+			for _, n := range []int{10, 70, 300, 1500} {
+				for _, src := range c01Scale(n) {
+					kC01Scale.Do(c, c01Case{Src: src, Input: run.TV{V: nil}})
 				}
 			}
 			// (b) random G1
